@@ -41,6 +41,10 @@ type FlowOpts struct {
 	// Alias: follow only what can share a backing store (append aliases its
 	// first argument only; string<->[]byte conversions copy).
 	Alias bool
+	// LiftParams: a parameter of an unexported, non-escaping function is
+	// replaced by the union of the origins of the matching argument at all
+	// its static call sites (this many levels up).
+	LiftParams int
 	// Interproc: follow results of static calls to module functions into the
 	// callee (this many levels); parameter leaves of the callee are mapped
 	// back to the call's arguments.
@@ -150,6 +154,19 @@ func Origins(v ssa.Value, opt FlowOpts) []Origin {
 		}
 		switch x := v.(type) {
 		case *ssa.Parameter:
+			if opt.LiftParams > 0 {
+				if sites := liftSites(x); len(sites) > 0 {
+					sub := opt
+					sub.LiftParams--
+					for _, a := range sites {
+						for _, o := range Origins(a, sub) {
+							o.Path = append(append([]string{}, path...), o.Path...)
+							leafRaw(o)
+						}
+					}
+					return
+				}
+			}
 			leaf(Origin{Kind: "param", Name: x.Name(), Val: x}, path)
 		case *ssa.FreeVar:
 			leaf(Origin{Kind: "freevar", Name: x.Name(), Val: x}, path)
@@ -514,6 +531,91 @@ func accumulatorWrites(f *ssa.Function, acc ssa.Value) []ssa.Value {
 			if a := ci.Arg(0); a != nil {
 				out = append(out, a)
 			}
+		}
+	}
+	return out
+}
+
+var (
+	liftIndexProg *ssa.Program
+	liftIndex     map[*ssa.Function][]*ssa.CallCommon
+	liftEscapes   map[*ssa.Function]bool
+)
+
+// liftSites: the arguments bound to parameter p at every static call site of
+// its function, when that function is unexported and never used as a value.
+func liftSites(p *ssa.Parameter) []ssa.Value {
+	f := p.Parent()
+	if f == nil || f.Parent() != nil || f.Object() == nil || f.Object().Exported() || f.Pkg == nil {
+		return nil
+	}
+	if liftIndexProg != f.Prog {
+		liftIndexProg = f.Prog
+		liftIndex = map[*ssa.Function][]*ssa.CallCommon{}
+		liftEscapes = map[*ssa.Function]bool{}
+		for _, pkg := range f.Prog.AllPackages() {
+			if !strings.HasPrefix(pkg.Pkg.Path(), modPath) {
+				continue
+			}
+			var fns []*ssa.Function
+			for _, m := range pkg.Members {
+				if fn, ok := m.(*ssa.Function); ok {
+					fns = append(fns, withClosures(fn)...)
+				}
+				if t, ok := m.(*ssa.Type); ok {
+					for _, tt := range []types.Type{t.Type(), types.NewPointer(t.Type())} {
+						ms := f.Prog.MethodSets.MethodSet(tt)
+						for i := 0; i < ms.Len(); i++ {
+							if fo, ok := ms.At(i).Obj().(*types.Func); ok && fo.Pkg() == pkg.Pkg {
+								if fn := f.Prog.FuncValue(fo); fn != nil {
+									fns = append(fns, withClosures(fn)...)
+								}
+							}
+						}
+					}
+				}
+			}
+			seen := map[*ssa.Function]bool{}
+			for _, fn := range fns {
+				if seen[fn] || fn.Blocks == nil {
+					continue
+				}
+				seen[fn] = true
+				for _, b := range fn.Blocks {
+					for _, in := range b.Instrs {
+						var cc *ssa.CallCommon
+						if ci, ok := in.(ssa.CallInstruction); ok {
+							cc = ci.Common()
+							if g := cc.StaticCallee(); g != nil {
+								liftIndex[g] = append(liftIndex[g], cc)
+							}
+						}
+						for _, op := range in.Operands(nil) {
+							if op == nil || *op == nil {
+								continue
+							}
+							if g, ok := (*op).(*ssa.Function); ok && !(cc != nil && cc.Value == ssa.Value(g)) {
+								liftEscapes[g] = true
+							}
+						}
+					}
+				}
+			}
+		}
+	}
+	if liftEscapes[f] {
+		return nil
+	}
+	idx := -1
+	for i, q := range f.Params {
+		if q == p {
+			idx = i
+		}
+	}
+	var out []ssa.Value
+	for _, cc := range liftIndex[f] {
+		if idx >= 0 && idx < len(cc.Args) {
+			out = append(out, cc.Args[idx])
 		}
 	}
 	return out
